@@ -55,7 +55,7 @@ def minimise(run, cfg: dict, steps: list, target: tuple, budget_s: float = 25.0)
                 cfg = c2
                 break
     # shrink row counts
-    for t in ("A", "B", "D"):
+    for t in ("A", "B", "D", "A_1"):
         for n_rows in (0, 1, 2, 3):
             if time.time() >= t_end:
                 break
